@@ -8,7 +8,8 @@ class Prop(WalletProp):
     rule = ("Watch: a full wallet (random seed, either network) exports the extended public key of a node at depth 0..5 under each of the six public "
             "version prefixes; the wallet rebuilt from that string derives non-hardened sub-paths of length 0..4 and its five addresses, SEC key, chain "
             "code, depth, index and fingerprint are compared with the full wallet's node below the export node (incl. sub-paths through a node whose "
-            "public x coordinate starts with a zero byte); hardened sub-paths must be refused. "
+            "public x coordinate starts with a zero byte); hardened sub-paths must be refused; WatchGen: generate_children with ascending, descending and stepped ranges around 2^31 "
+            "never yields a child with a hardened index. "
             "WatchPriv: watch_only flag, bip85, node_extended_private_key, node_extended_keys.prv, group rows; no string in any answer may decode to "
             "a private-key encoding. Non-trivial = distinct (case, output).")
 
@@ -41,6 +42,11 @@ class Prop(WalletProp):
             w = self.rand_wspec(rng, testnet)
             b = {"w": self.rand_wspec(rng, testnet), "export": [84 + H, H, H], "v": PUBV[testnet][0], "rounds": 2}
             cases.append({"kind": "Watch", "w": w, "export": [84 + H, H, H], "v": PUBV[testnet][0], "sub": sub, "before": [b, dict(b, w=self.rand_wspec(rng, testnet))]})
+        # generate_children on public-only nodes with every shape of range arguments around the hardened boundary
+        w = self.rand_wspec(rng, False)
+        for iv in ((H - 2, H), (H - 1, H + 1), (H, H + 1), (H + 1, H - 2, -1), (H, H - 3, -1), (H - 1, H - 4, -1), (0, 3), (3, 0, -1),
+                   (H - 2, H + 3, 2), (H + 5, H + 1, -2), (2 ** 32 - 1, 2 ** 32), (0, 0), (5, 2)):
+            cases.append({"kind": "WatchGen", "w": w, "export": [84 + H, H, H], "v": PUBV[False][0], "sub": [0], "interval": list(iv)})
         w = self.rand_wspec(rng, False)
         for sub in ([H], [0, H + 1], [2 ** 32 - 1]):
             cases.append({"kind": "Watch", "w": w, "export": [44 + H, H, H], "v": PUBV[False][0], "sub": sub})
